@@ -123,7 +123,7 @@ def analyse_c19(program, s, run, verdict):
         m = re.search(rb'"t([0-9]+)"', req["body"])
         if m and "symbol" in req:
             by_token.setdefault(int(m.group(1)), []).append(req["symbol"])
-    STATUS = {"4xx-len": 404, "5xx-len": 500, "5xx-nolen-close": 503, "bodiless": 204, "bodiless-open": 502}
+    STATUS = {"4xx-len": 404, "5xx-len": 500, "5xx-nolen-close": 599, "bodiless": 204, "bodiless-open": 502}
     for i in sorted(outcomes):
         out = outcomes[i]
         tok = "t%d" % i
@@ -327,7 +327,8 @@ def gen_c18(rng):
     palette = rng.sample(["X-A", "X-Test", "User-Agent", "Content-Type", "Content-Length", "Authorization", "X-Num"], rng.randint(1, 3))
     return {"family": rng.choice(["tcp", "unix"]), "ctor": gen_headers(rng, palette) if rng.random() < 0.7 else None,
             "user_agent": rng.choice([None, "custom-agent/1.0"]), "content_type": rng.choice(["application/json-rpc", "application/json"]),
-            "ops": gen_ops(rng, 0, [rng.randint(3, 10)], palette), "http10": rng.random() < 0.2}
+            "ops": gen_ops(rng, 0, [rng.randint(3, 10)], palette), "http10": rng.random() < 0.2,
+            "credentials": rng.choice([None, None, "user:secret"])}
 
 
 class C18Run(object):
@@ -340,7 +341,7 @@ class C18Run(object):
 
     def effective(self):
         """Reference: fold over the stack in push order, case-insensitive, most recent wins."""
-        eff = {}
+        eff = dict(getattr(self, "base", {}))
         for d in self.stack:
             for k, val in d.items():
                 eff[str(k).lower()] = str(val)
@@ -435,6 +436,14 @@ class C18Run(object):
         cfg = cfgmod.Config(content_type=p.get("content_type", "application/json-rpc"), user_agent=p.get("user_agent"))
         self.cfg = cfg
         url = pr.url_base + ("/" if p["family"] == "tcp" else "")
+        self.base = {}
+        if p.get("credentials") and p["family"] == "tcp":
+            import base64
+
+            url = url.replace("http://", "http://%s@" % p["credentials"])
+            # xmlrpc.client turns the user info of the URL into an Authorization header: the bottom layer of the stack
+            self.base = {"authorization": "Basic " + base64.b64encode(p["credentials"].encode()).decode()}
+            s.probe("credentials_in_url")
         self.proxy = self.jc.ServerProxy(url, headers=p.get("ctor"), config=cfg)
         self.stack = [p.get("ctor") or {}]
         try:
@@ -607,7 +616,7 @@ class C18Scenario(object):
                 q = copy.deepcopy(p)
                 del q["ctor"][k]
                 yield q
-        for key, val in (("family", "tcp"), ("http10", False), ("user_agent", None), ("content_type", "application/json-rpc")):
+        for key, val in (("family", "tcp"), ("http10", False), ("user_agent", None), ("content_type", "application/json-rpc"), ("credentials", None)):
             if p.get(key) != val:
                 q = copy.deepcopy(p)
                 q[key] = val
@@ -658,7 +667,9 @@ def gen_c17(rng):
                 "backend": backend, "param": gen_text(rng), "result": gen_text(rng, around),
                 "encoding": rng.choice(["identity", "identity", "gzip", "chunked"]),
                 "seg": rng.choice(["whole", "random", "small"]), "http10": rng.random() < 0.5,
-                "style": rng.choice(["call", "call", "notify", "batch"]), "indent": rng.choice([None, None, None, 1200])}
+                "style": rng.choice(["call", "call", "notify", "batch"]), "indent": rng.choice([None, None, None, 1200]),
+                # an earlier exchange on the same proxy is cut in the middle of a large body (or reset): the judged one must not see its remains
+                "pre_fault": rng.choice([None, None, None, "truncated", "reset-mid-body"])}
     if k < 0.9:
         chunk = rng.choice([None, 1, 2, 3, 5, 7, 16, 64, 1000])
         return {"mode": "server", "kind": rng.choice(["plain", "pooled"]), "family": rng.choice(["tcp", "unix"]),
@@ -667,7 +678,8 @@ def gen_c17(rng):
                 "seg": rng.choice(["whole", "random", "small"])}
     if k < 0.95:
         return {"mode": "cgi", "backend": backend, "param": gen_text(rng), "content_type": rng.choice(["application/json-rpc", "application/json"])}
-    return {"mode": "scheme", "scheme": rng.choice(["ftp", "ws", "file", "", "unix+ftp", "unix+https", "gopher", "httpx", "unix+", "mailto"])}
+    return {"mode": "scheme", "scheme": rng.choice(["ftp", "ws", "file", "", "unix+ftp", "unix+https", "gopher", "httpx", "unix+", "mailto", "svn+http", "git+https", "tcp+http",
+                                                      "unix+unix+http", "x-unix+http", "http+unix", "+http", "unix+http+x"])}
 
 
 class RawJson(object):
@@ -724,7 +736,10 @@ class C17Run(object):
                 return b""
             return json.dumps({"jsonrpc": "2.0", "id": obj["id"], "result": p["result"]}, ensure_ascii=False, indent=p.get("indent")).encode("utf-8")
 
-        pr = peermod.Peer(s, p["family"], [], reply_fn=reply, encoding=p.get("encoding", "identity"), http10=p.get("http10", False))
+        script = []
+        if p.get("pre_fault"):
+            script = ["big-" + p["pre_fault"]]
+        pr = peermod.Peer(s, p["family"], script, reply_fn=reply, encoding=p.get("encoding", "identity"), http10=p.get("http10", False))
         pr.start()
         self.peer = pr
         cfg = cfgmod.Config(content_type=p["content_type"])
@@ -737,6 +752,14 @@ class C17Run(object):
             url += "?" + p["query"]
         s.emit("url", url)
         proxy = self.jc.ServerProxy(url, config=cfg)
+        if p.get("pre_fault"):
+            try:
+                val = proxy.echo("first exchange, hit by the fault")
+                s.emit("pre_fault.outcome", "value", val == p["result"])
+            except core.SimAbort:
+                raise
+            except BaseException as ex:
+                s.emit("pre_fault.outcome", type(ex).__name__, False)
         try:
             if p["style"] == "call":
                 out = ["value", proxy.echo(p["param"])]
@@ -885,6 +908,15 @@ def analyse_c17(program, s, run, verdict):
                                "client raised %s for a valid %s-encoded UTF-8 response of %d bytes" % (out[1:], p["encoding"], len(p["result"].encode("utf-8")))))
         elif out[1] != want:
             v.append(Violation("C17", "reassembly", "client-text-differs", "decoded text differs from the decoding of the whole body"))
+        pf = ev.get("pre_fault.outcome")
+        if pf is not None and p.get("pre_fault") == "reset-mid-body":
+            # the connection was reset in the middle of the first reply: the transport retries once and the second,
+            # complete reply is a valid body like any other
+            if pf[3] != "value":
+                v.append(Violation("C17", "reassembly", "client-raised-after-reset:%s" % pf[3],
+                                   "the reply that followed a reply cut by a reset was not reassembled: %s" % pf[3]))
+            elif not pf[4]:
+                v.append(Violation("C17", "reassembly", "client-text-differs-after-reset", "text decoded after a cut reply differs from the whole body"))
         # what was on the wire, one request per connection
         for conn in s.net.conns:
             data = bytes(conn.c2s)
@@ -989,6 +1021,8 @@ class C17Scenario(object):
                 p["whitespace_only_read_block"] = 1
             if pg["query"]:
                 p["query_string"] = 1
+            if pg.get("pre_fault"):
+                p["earlier_exchange_cut_mid_body"] = 1
             if "%" in pg["path"]:
                 p["percent_escape_in_path"] = 1
             p["family_" + pg["family"]] = 1
@@ -1014,7 +1048,7 @@ class C17Scenario(object):
                         q = copy.deepcopy(p)
                         q[key] = cand
                         yield q
-        for key, val in (("seg", "whole"), ("encoding", "identity"), ("family", "tcp"), ("backend", "ascii"), ("http10", True),
+        for key, val in (("pre_fault", None), ("seg", "whole"), ("encoding", "identity"), ("family", "tcp"), ("backend", "ascii"), ("http10", True),
                          ("query", ""), ("path", "/"), ("style", "call"), ("kind", "plain"), ("content_type", "application/json-rpc")):
             if key in p and p[key] != val:
                 q = copy.deepcopy(p)
